@@ -1122,4 +1122,191 @@ theorem sim_collector {sep : Char} (strip : Bool) {ac : Bool} {st : PState} {ss 
     apply hsam
     simpa [fin] using hh
 
+/-! ## Composition over a list of loosely written segments -/
+
+theorem sim_any {sep : Char} (hsep : sep = '.' ∨ sep = '/') (strip : Bool) {ac : Bool}
+    {st : PState} {ss : List Seg} (h : Inv ac st ss) (lead : Bool) (l : LSeg)
+    (hlead : lead = false → st.segId = [] ∧ st.segType = none ∧
+      (l.isTop = true → st.seekingAnchorMark = true))
+    (hamp : l.isInter = true → st.seekingAnchorMark = false)
+    (hwf : l.WF sep ac) : Simulates sep strip lead st ss l := by
+  have hlead' : lead = false → st.segId = [] ∧ st.segType = none :=
+    fun hl => ⟨(hlead hl).1, (hlead hl).2.1⟩
+  cases l with
+  | key ts => exact sim_key hsep strip h lead hlead' ts hwf
+  | matchAll => exact sim_matchAll hsep strip h lead hlead'
+  | traverse => exact sim_traverse hsep strip h lead hlead'
+  | index i => exact sim_index strip h lead i
+  | slice sl => exact sim_slice strip h lead sl hwf
+  | anchor top ts =>
+    cases top with
+    | false => exact sim_anchor_br strip h lead ts hwf
+    | true =>
+      exact sim_anchor_top hsep strip h lead
+        (fun hl => ⟨(hlead hl).1, (hlead hl).2.1, (hlead hl).2.2 rfl⟩) ts hwf
+  | search inv m attr term => exact sim_search strip h lead inv m attr term hwf
+  | regex inv attr d term => exact sim_regex strip h lead inv attr d term hwf
+  | keyword inv kw ps => exact sim_keyword strip h lead inv kw ps hwf
+  | collector e op =>
+    refine sim_collector strip h lead e op hwf (fun ho => hamp ?_)
+    subst ho; rfl
+
+def textFrom (sep : Char) : Bool → List LSeg → Str
+  | _, [] => []
+  | lead, l :: r => l.text sep lead ++ textFrom sep true r
+
+/-- the whole path text -/
+def textAll (fslash : Bool) (ls : List LSeg) : Str :=
+  if fslash then '/' :: textFrom '/' false ls else textFrom '.' false ls
+
+/-- well-formedness along a list.  `ac`: the previous segment was a collector; `mm`: the
+anchor-mark position may still be open (start of a forward-slash path, and then only across collectors
+with an empty expression) — there an `&` collector operator would be taken for an anchor mark. -/
+def wfFromL (sep : Char) : Bool → Bool → List LSeg → Prop
+  | _, _, [] => True
+  | ac, mm, l :: r => l.WF sep ac ∧ (l.isInter = true → mm = false) ∧
+      wfFromL sep l.isColl (mm && l.isEmptyColl) r
+
+theorem run_texts {sep : Char} (hsep : sep = '.' ∨ sep = '/') (strip : Bool) :
+    ∀ (ls : List LSeg) (ac mm : Bool) (st : PState) (ss : List Seg) (lead : Bool),
+    Inv ac st ss →
+    (lead = false → st.segId = [] ∧ st.segType = none ∧
+      (∀ l ∈ ls.head?, l.isTop = true → st.seekingAnchorMark = true)) →
+    (mm = false → st.seekingAnchorMark = false) →
+    wfFromL sep ac mm ls →
+    ∃ st' ac', run sep strip st (textFrom sep lead ls) = .ok st' ∧
+      Inv ac' st' (ss ++ ls.map (LSeg.seg strip)) := by
+  intro ls
+  induction ls with
+  | nil => intro ac mm st ss lead h _ _ _; exact ⟨st, ac, by simp [textFrom, run], by simpa using h⟩
+  | cons l r ih =>
+    intro ac mm st ss lead h hlead hmm hwf
+    obtain ⟨hw1, hw2, hw3⟩ := hwf
+    obtain ⟨st1, hr1, hi1, hm1⟩ := sim_any hsep strip h lead l
+      (fun hl => ⟨(hlead hl).1, (hlead hl).2.1, (hlead hl).2.2 l (by simp)⟩)
+      (fun hi => hmm (hw2 hi)) hw1
+    obtain ⟨st2, ac2, hr2, hi2⟩ := ih l.isColl (mm && l.isEmptyColl) st1 (ss ++ [l.seg strip]) true
+      hi1 (by simp) (fun hf => by
+        by_cases hs : st1.seekingAnchorMark = true
+        · obtain ⟨h1, h2⟩ := hm1 hs
+          cases hmv : mm
+          · rw [hmm hmv] at h2; cases h2
+          · simp [hmv, h1] at hf
+        · simpa using hs) hw3
+    refine ⟨st2, ac2, ?_, by simpa using hi2⟩
+    simp only [textFrom]
+    rw [run_append_ok hr1]
+    exact hr2
+
+theorem text_head_amp {sep : Char} {l : LSeg} (hwf : l.WF sep false) (hs : sep = '.' ∨ sep = '/') :
+    (l.text sep false).head? = some '&' ↔ l.isTop = true := by
+  cases l with
+  | key ts =>
+    obtain ⟨hne, hamp, _, _, _⟩ := hwf
+    cases ts with
+    | nil => exact absurd rfl hne
+    | cons t ts =>
+      obtain ⟨e, c⟩ := t
+      cases e
+      · rcases hamp (false, c) (by simp) with h1 | h1
+        · cases h1
+        · simp [LSeg.text, sepIf, tokText, Tok.text, LSeg.isTop]; exact h1
+      · simp [LSeg.text, sepIf, tokText, Tok.text, LSeg.isTop]
+  | anchor top ts => cases top <;> simp [LSeg.text, sepIf, LSeg.isTop]
+  | collector e op =>
+    obtain ⟨hop, _⟩ := hwf
+    rcases hop with hop | hop
+    · cases hop
+    · subst hop; simp [LSeg.text, CollOp.text, LSeg.isTop]
+  | search inv m attr term => simp [LSeg.text, LSeg.isTop]
+  | regex inv attr d term => simp [LSeg.text, LSeg.isTop]
+  | keyword inv kw ps => simp [LSeg.text, LSeg.isTop]
+  | _ => simp [LSeg.text, sepIf, LSeg.isTop]
+
+/-- **The engine.**  The parser model reads a loosely written, well-formed list of segments back as
+exactly those segments — the characters of the texts with `strip = true` (`escaped`), the texts as
+written with `strip = false` (`unescaped`). -/
+theorem parseWith_texts (fslash strip : Bool) (ls : List LSeg)
+    (hwf : wfFromL (if fslash then '/' else '.') false
+      (fslash || (ls.head?.map LSeg.isTop).getD false) ls)
+    (hn : normOriginal (textAll fslash ls) = textAll fslash ls) :
+    parseWith fslash strip (textAll fslash ls) = .ok (ls.map (LSeg.seg strip)) := by
+  cases fslash with
+  | true =>
+    have key : ∀ b : Bool, ∃ st2 ac2, run '/' strip { seekingAnchorMark := b } (textAll true ls)
+        = .ok st2 ∧ Inv ac2 st2 (ls.map (LSeg.seg strip)) := by
+      intro b
+      obtain ⟨st1, hs1, hi1, h1, h2, h3⟩ := step_sep (sep := '/') (Or.inr rfl) strip (init_inv b)
+      obtain ⟨st2, ac2, hr2, hi2⟩ := run_texts (sep := '/') (Or.inr rfl) strip ls false true st1 []
+        false hi1 (fun _ => ⟨h1, h2, fun _ _ _ => h3⟩) (by simp) (by simpa using hwf)
+      refine ⟨st2, ac2, ?_, by simpa using hi2⟩
+      simp only [textAll, ↓reduceIte, run, hs1]
+      exact hr2
+    unfold parseWith
+    simp only [hn]
+    have hne : textAll true ls ≠ [] := by simp [textAll]
+    simp only [hne, ↓reduceIte]
+    have fin : ∀ b : Bool, (match run '/' strip { seekingAnchorMark := b } (textAll true ls) with
+        | .error e => (Except.error e : Except PErr (List Seg))
+        | .ok st => finish st) = .ok (ls.map (LSeg.seg strip)) := by
+      intro b
+      obtain ⟨st2, ac2, hr2, hi2⟩ := key b
+      simp only [hr2]
+      exact finish_of_inv hi2
+    exact fin _
+  | false =>
+    cases ls with
+    | nil => simp [textAll, textFrom, parseWith, normOriginal]
+    | cons l r =>
+      simp only [Bool.false_eq_true, ↓reduceIte, Bool.false_or, List.head?_cons, Option.map_some,
+        Option.getD_some] at hwf
+      have hw1 := hwf.1
+      have hamp := text_head_amp hw1 (Or.inl rfl)
+      have hhead : (textAll false (l :: r))[0]? = (l.text '.' false).head? := by
+        have hne : l.text '.' false ≠ [] := by
+          cases l <;> try simp [LSeg.text, sepIf]
+          case key ts =>
+            obtain ⟨hne, _⟩ := hw1
+            cases ts with
+            | nil => exact absurd rfl hne
+            | cons t ts => obtain ⟨e, c⟩ := t; cases e <;> simp [tokText, Tok.text]
+          case anchor top ts => cases top <;> simp [LSeg.text, sepIf]
+        cases hx : l.text '.' false with
+        | nil => exact absurd hx hne
+        | cons c k => simp [textAll, textFrom, hx]
+      obtain ⟨st2, ac2, hr2, hi2⟩ := run_texts (sep := '.') (Or.inl rfl) strip (l :: r) false l.isTop
+        { seekingAnchorMark := (textAll false (l :: r))[0]? = some '&' } [] false (init_inv _)
+        (fun _ => ⟨rfl, rfl, fun l' hl' ht => by
+          simp at hl'; subst hl'
+          show decide (_ = _) = true
+          rw [hhead]; simpa using hamp.mpr ht⟩)
+        (fun hf => by
+          show decide (_ = _) = false
+          rw [hhead]
+          simp only [decide_eq_false_iff_not]
+          intro hc
+          rw [hamp.mp hc] at hf; cases hf) hwf
+      unfold parseWith
+      simp only [hn]
+      have hne : textAll false (l :: r) ≠ [] := by
+        intro h0
+        rw [h0] at hhead
+        have : (l.text '.' false).head? = none := by simpa using hhead.symm
+        have hnil : l.text '.' false = [] := by simpa using this
+        simp [textAll, textFrom] at h0
+        cases l <;> simp [LSeg.text, sepIf] at hnil
+        case key ts =>
+          obtain ⟨hne, _⟩ := hw1
+          cases ts with
+          | nil => exact absurd rfl hne
+          | cons t ts => obtain ⟨e, c⟩ := t; cases e <;> simp [tokText, Tok.text] at hnil
+        case anchor top ts => cases top <;> simp [LSeg.text, sepIf] at hnil
+      simp only [hne, ↓reduceIte]
+      have : run '.' strip { seekingAnchorMark := (textAll false (l :: r))[0]? = some '&' }
+          (textAll false (l :: r)) = .ok st2 := by
+        simpa [textAll] using hr2
+      simp only [Bool.false_eq_true, false_and, ↓reduceIte] at this ⊢
+      simp only [this]
+      simpa using finish_of_inv hi2
+
 end Ypv.Sim
